@@ -1,4 +1,5 @@
 import Dalek.Proofs.EdsSign
+import Dalek.Proofs.EdsFast
 /-!
 # C09 — Ed25519 verification accepts exactly the documented set of signatures
 
@@ -37,6 +38,13 @@ theorem verify_ops_independent {ops : Ops} (hc : OpsCorrect ops) (legacy strict 
   · show verifyPhWith ops legacy strict vk msg ctx sig = verifyPhWith Ops.spec legacy strict vk msg ctx sig
     unfold verifyPhWith
     simp only [verifyCoreWith_congr hc]
+
+/-- In particular the functions executed by the model driver in the correspondence run (group operations
+`Dalek.Driver.fastOps`) are the specification functions the theorems below are about. -/
+theorem verify_driver_eq (legacy strict : Bool) (vk msg sig : List UInt8) (ctx : Option (List UInt8)) :
+    verifyWith Dalek.Driver.fastOps legacy strict vk msg sig = verify legacy strict vk msg sig ∧
+    verifyPhWith Dalek.Driver.fastOps legacy strict vk msg ctx sig = verifyPh legacy strict vk msg ctx sig :=
+  verify_ops_independent opsCorrect_fastOps legacy strict vk msg sig ctx
 
 /-! ## Decision logic -/
 
@@ -360,5 +368,7 @@ example : verify false false (natToLe 2 32) [] (natToLe 1 32 ++ natToLe 0 32) = 
 #guard_msgs in #print axioms legacy_relaxes_only_S
 /-- info: 'Dalek.Props.C09.verify_ops_independent' depends on axioms: [propext, Classical.choice, Quot.sound] -/
 #guard_msgs in #print axioms verify_ops_independent
+/-- info: 'Dalek.Props.C09.verify_driver_eq' depends on axioms: [propext, Classical.choice, Quot.sound] -/
+#guard_msgs in #print axioms verify_driver_eq
 
 end Dalek.Props.C09
